@@ -139,6 +139,8 @@ pub fn strategy(maxdim: usize) -> BoxedStrategy<Case> {
             let ones: Vec<(usize, usize)> = edges.into_iter().map(|(i, j)| (rp[i], cp[j])).collect();
             Case { h: Mat { rows: r, cols: c, ones }, class: name.to_string() }
         })
+        .prop_flat_map(|c| (shuffled(Just(c.h)), Just(c.class)))
+        .prop_map(|(h, class)| Case { h, class })
         .boxed()
 }
 
